@@ -24,6 +24,11 @@ pub struct Directory<F> {
     allocator: Allocator<F>,
     dir_entries: Vec<DirEntry>,
     dir_start_sector: u32,
+    // How many times each directory entry has been freed since the file was
+    // opened (entries never freed may be missing from the end).  A `Stream`
+    // remembers the count of its entry, so that it can tell when its stream
+    // has been removed, even if the entry is in use again.
+    dir_entry_generations: Vec<u32>,
 }
 
 impl<F> Directory<F> {
@@ -33,7 +38,12 @@ impl<F> Directory<F> {
         dir_start_sector: u32,
         validation: Validation,
     ) -> io::Result<Directory<F>> {
-        let directory = Directory { allocator, dir_entries, dir_start_sector };
+        let directory = Directory {
+            allocator,
+            dir_entries,
+            dir_start_sector,
+            dir_entry_generations: Vec::new(),
+        };
         directory.validate(validation)?;
         Ok(directory)
     }
@@ -87,6 +97,15 @@ impl<F> Directory<F> {
 
     pub fn dir_entry(&self, stream_id: u32) -> &DirEntry {
         &self.dir_entries[stream_id as usize]
+    }
+
+    /// Returns the number of times the given directory entry has been freed
+    /// since the file was opened.
+    pub fn dir_entry_generation(&self, stream_id: u32) -> u32 {
+        self.dir_entry_generations
+            .get(stream_id as usize)
+            .copied()
+            .unwrap_or(0)
     }
 
     fn dir_entry_mut(&mut self, stream_id: u32) -> &mut DirEntry {
@@ -503,6 +522,11 @@ impl<F: Write + Seek> Directory<F> {
         let dir_entry = DirEntry::unallocated();
         dir_entry.write_to(&mut self.seek_to_dir_entry(stream_id)?)?;
         *self.dir_entry_mut(stream_id) = dir_entry;
+        let index = stream_id as usize;
+        if self.dir_entry_generations.len() <= index {
+            self.dir_entry_generations.resize(index + 1, 0);
+        }
+        self.dir_entry_generations[index] += 1;
         // TODO: Truncate directory chain if last directory sector is now all
         //       unallocated.
         //       In that case, also call update_num_dir_sectors()
